@@ -363,18 +363,22 @@ def check_recompute(ctx, fb):
         c = p.calls(r"HashMap::<K, V, S, A>::insert$")[0]
         key, val = c[2][1], c[2][2]
         hc = p.calls(r"hash_couple$")
-        dphi = [s_ for s_ in subterms(key) if s_[0] == "phi" and s_[4] == F(P(1), "depth")]
+        o = outer[0]
+        lv = desc_level(o)
         rng = p.calls(r"RangeInclusive::<Idx>::new$")
+        rng = [r_ for r_ in rng if any(x[0] == "phi" for x in subterms(("t",) + tuple(r_[2])))]
         it_item = None
         for cc in p.calls(r"RangeInclusive<A>>::next$"):
             it_item = ("unwrap", ("call", cc[1], cc[2]))
-        if not (dphi and rng and it_item):
-            why = "level loop shape not recognised"
+        if not (lv and rng and it_item):
+            why = "level loop shape not recognised (a walk over the levels self.depth, .., 1 with an inner loop over the parents)"
         else:
-            d = dphi[0]
+            d, top, lguards = lv
             lo, hi = rng[0][2]
             fphi = [s_ for s_ in subterms(lo) if s_[0] == "phi"]
             lphi = [s_ for s_ in subterms(hi) if s_[0] == "phi"]
+            inner_next = ("ok", it_item[1])
+            allowed = set(lguards) | {inner_next}
             if key != ("tuple", (("bin", "Sub", d, mk_const("usize", 1)), it_item)):
                 why = "parent stored at %s, specification (depth - 1, parent_index)" % sh(key, 100)
             elif not (len(hc) == 1 and val == ("call", hc[0][1], hc[0][2]) and hc[0][2][1] == d and hc[0][2][2] == ("bin", "Shl", it_item, mk_const("i32", 1))):
@@ -382,16 +386,25 @@ def check_recompute(ctx, fb):
             elif not (fphi and lphi and lo == ("bin", "Shr", fphi[0], mk_const("i32", 1)) and hi == ("bin", "Shr", lphi[0], mk_const("i32", 1))):
                 why = "parents recomputed for %s ..= %s, specification (first >> 1) ..= (last >> 1): every parent of the changed range" % (sh(lo, 60), sh(hi, 60))
             else:
-                o = outer[0]
-                nf, nl, nd = carried_of(o, fphi[0]), carried_of(o, lphi[0]), carried_of(o, d)
-                if nf != lo or nl != hi or nd != ("bin", "Sub", d, mk_const("usize", 1)):
-                    why = "after a level the range becomes (%s, %s) at depth %s, specification (first>>1, last>>1, depth-1)" % (sh(nf, 40), sh(nl, 40), sh(nd, 40))
-                elif fphi[0][4] != P(2) or lphi[0][4] != ("bin", "Sub", ("bin", "Add", P(2), P(3)), mk_const("usize", 1)) or d[4] != F(P(1), "depth"):
-                    why = "the climb starts with (first, last, depth) = (%s, %s, %s), specification (index, index + length - 1, self.depth)" % (sh(fphi[0][4], 40), sh(lphi[0][4], 60), sh(d[4], 40))
+                nf, nl = carried_of(o, fphi[0]), carried_of(o, lphi[0])
+                if nf != lo or nl != hi:
+                    why = "after a level the range becomes (%s, %s), specification (first>>1, last>>1)" % (sh(nf, 40), sh(nl, 40))
+                elif fphi[0][4] != P(2) or lphi[0][4] != ("bin", "Sub", ("bin", "Add", P(2), P(3)), mk_const("usize", 1)) or top != F(P(1), "depth"):
+                    why = "the climb starts with (first, last, depth) = (%s, %s, %s), specification (index, index + length - 1, self.depth)" % (sh(fphi[0][4], 40), sh(lphi[0][4], 60), sh(top, 40))
                 else:
-                    g = [(a_, v) for a_, v in o.conds() if a_[0] == "b" and a_[1] == ("bin", "Gt", d, mk_const("usize", 0))]
-                    if not (g and g[0][1] is True):
-                        why = "the level loop is not `while depth > 0`"
+                    # nothing else decides whether a level or a parent is recomputed: besides the empty-range shortcut and the loops'
+                    # own guards no condition may appear on any path that stores, climbs or returns Ok
+                    def is_empty_guard(a_):
+                        t = a_[1] if len(a_) > 1 else None
+                        return a_[0] == "b" and isinstance(t, tuple) and t and ((t[0] == "bin" and t[1] in ("Eq", "Ne") and P(3) in t[2:] and any(cint(x) == 0 for x in t[2:] if isinstance(x, tuple))) or t[0] == "is_empty")
+                    for q in paths:
+                        if q.kind == "return" and known_ok(eng.value_of(q.store, q.ret)) is False:
+                            continue
+                        if q.kind not in ("return", "backedge"):
+                            continue
+                        extra = [(a_, v) for a_, v in q.conds() if a_ not in allowed and not is_empty_guard(a_)]
+                        if extra:
+                            why = "whether a level is recomputed depends on %s: an early exit leaves the levels above (and the root) stale" % [(sh(a_, 80), v) for a_, v in extra][:3]
     ctx.check(why is None, "R06-3", "optimal::update_hashes", "for every level: nodes[(depth-1, p)] = hash_couple(depth, 2p) for p in first>>1 ..= last>>1; range halved; until depth 0",
               "update_hashes: %s (a range write must rehash every parent of the written range on every level)" % why, loc(it))
     for m, args in (("set", (P(2), mk_const("usize", 1))), ("set_range", (P(2), ("len", P(3))))):
@@ -427,20 +440,46 @@ def check_recompute(ctx, fb):
         for c in p.calls(r"update_nodes$"):
             rec = c
     ctx.check(ok, "R06-3", "full::update_nodes", "nodes[p] = H(nodes[2p+1], nodes[2p+2]) for each parent p of the range", why, loc(it))
-    okr = rec is not None and all("Shr" in sh(a, 200) for a in rec[2][1:])
-    # the climb is unconditional: every path that recomputed a level goes on to the level above (no early exit)
+    # The climb, as a step relation that does not depend on how the repetition is spelled (tail recursion or a loop):
+    #   state (start, end)  ->  (parent(start), parent(end)),  parent(x) = ((x + 1) >> 1) - 1,
+    # taken unconditionally after a level has been recomputed, and the only way to finish with Ok without taking it is that a
+    # parent does not exist (start == 0 or end == 0: the root has been reached).
     eng_r = Engine(fb, inline=inline_only(r"FullMerkleTree::<H>::(parent|first_child|levels)$"))
-    for p in eng_r.run(it):
-        if p.kind != "return":
+    run = eng_r.run(it)
+    par = lambda x: ("bin", "Sub", ("bin", "Shr", ("bin", "Add", x, mk_const("usize", 1)), mk_const("i32", 1)), mk_const("usize", 1))
+    steps, cur = [], None
+    for p in run:
+        for c in p.calls(r"update_nodes$"):
+            steps.append((p, (P(2), P(3)), (c[2][1], c[2][2])))
+        if p.kind == "backedge":
+            ph = {ph_[4]: (ph_, v) for ph_, v in loop_phis(p) if ph_[4] in (P(2), P(3))}
+            if len(ph) == 2:
+                steps.append((p, (ph[P(2)][0], ph[P(3)][0]), (ph[P(2)][1], ph[P(3)][1])))
+    okr = bool(steps)
+    whyr = "no recursive call and no loop over (start, end) found"
+    for p, (s0, e0), (s1, e1) in steps:
+        cur = (s0, e0)
+        if (s1, e1) != (par(s0), par(e0)):
+            okr = False
+            whyr = "the next level is (%s, %s), specification (parent(start), parent(end))" % (sh(s1, 60), sh(e1, 60))
+    for p in run:
+        if p.kind != "return" or not okr:
             continue
-        looped = any(e[0] == "loop" for e in p.trace)
-        if looped and not p.calls(r"update_nodes$"):
+        rv = eng_r.value_of(p.store, p.ret)
+        if known_ok(rv) is False:
+            continue
+        stepped = bool(p.calls(r"update_nodes$"))
+        at_root = any(op == "==" and cint(y) == 0 and x in cur for op, x, y in eq_facts(p.conds()))
+        if not stepped and not at_root:
             okr = False
-        extra = [(a, v) for a, v in p.conds() if looped and a[0] == "b" and not (a[1][0] == "bin" and a[1][1] in ("Eq", "Ne") and (cint(a[1][3]) == 0 or "trailing_zeros" in sh(a[1], 400)))
+            whyr = "a path returns Ok without going on to the level above although both parents exist (conditions %s)" % [(sh(a, 60), v) for a, v in p.conds()][-4:]
+        extra = [(a, v) for a, v in p.conds() if a[0] == "b" and not (a[1][0] == "bin" and a[1][1] in ("Eq", "Ne") and (cint(a[1][3]) == 0 or "trailing_zeros" in sh(a[1], 400)))
                  and not (a[0] == "b" and a[1][0] == "call" and a[1][1].endswith("::is_empty"))]
-        if extra:
+        if extra and any(e[0] == "loop" for e in p.trace):
             okr = False
-    ctx.check(okr, "R06-3", "full::update_nodes recursion", "recurses on (parent(start), parent(end)) until the root, unconditionally", "the climb to the root is conditional or missing on some path (recursion arguments %s): upper levels and the root can stay stale after a range write" % ([sh(a, 60) for a in rec[2][1:]] if rec else None), loc(it))
+            whyr = "the climb depends on %s" % [(sh(a, 80), v) for a, v in extra][:3]
+    ctx.check(okr, "R06-3", "full::update_nodes recursion", "(start, end) -> (parent(start), parent(end)) after every recomputed level, until a parent does not exist",
+              "the climb to the root is conditional or missing on some path (%s): upper levels and the root can stay stale after a range write" % whyr, loc(it))
     it = c15.get(fb, "full", "set_range")
     e4 = Engine(fb, inline=inline_only(r"ZerokitMerkleTree>::capacity$"))
     cs = [c for p in e4.run(it) for c in p.calls(r"update_nodes$")]
